@@ -610,8 +610,8 @@ def permissions(p1: int, m1: bool, p2: int, m2: bool, e2: bool) -> bool:
     post: _
     """
     rules = [rule(pick(PERM_T, p1), ('A', 'B'), _grp(m1)), rule(pick(PERM_T, p2), ('A',) if e2 else ('A', 'B'), _grp(m2))]
-    # relationship attributes are left to the attr_* harnesses (their answer depends on the reading, see module docstring)
-    return ok(check(rules, ('entity', 'attr', 'object'), g_user=('g1',), skip=lambda kind, n: n in REVERSE, trace_decl=True))
+    # (attribute targets share the permission lookup with entity targets; their own harnesses ask can_view and can_edit)
+    return ok(check(rules, ('entity', 'object'), g_user=('g1',), trace_decl=True))
 
 
 # ---- to_json: an object the user may not view is never emitted
@@ -623,7 +623,7 @@ def _to_json(rest, sc, e1, m1, x1, e2, m2, x2):
     global NPATHS
     NPATHS += 1
     rules = [rule('view', pick(ESET_T[:3], e1), _grp(m1), xe=pick(XE_T[:3], x1)),
-             rule('edit', pick(ESET_T[:3], e2), _grp(m2), xe=pick(XE_T[:N_XE_JSON], x2))]
+             rule('edit', pick(ESET_T[1:N_E_JSON], e2), _grp(m2), xe=pick(XE_T[:N_XE_JSON], x2))]
     scen = pick(SCEN_T, sc)
     with _untraced():
         if not concrete((rules, scen)): raise RuntimeError('symbolic value left in the decoded declarations: %s' % BAD)
@@ -658,11 +658,12 @@ def _to_json(rest, sc, e1, m1, x1, e2, m2, x2):
 
 
 N_XE_JSON = 4 if THOROUGH else 3
+N_E_JSON = 5 if THOROUGH else 3       # second rule: entity lists ESET_T[1:N_E_JSON]
 
 
 def to_json_objects(sc: int, e1: int, m1: bool, x1: int, e2: int, m2: bool, x2: int) -> bool:
     """
-    pre: 0 <= sc < 4 and 0 <= e1 < 3 and 0 <= x1 < 3 and 0 <= e2 < 3 and 0 <= x2 < N_XE_JSON
+    pre: 0 <= sc < 4 and 0 <= e1 < 3 and 0 <= x1 < 3 and 0 <= e2 < N_E_JSON - 1 and 0 <= x2 < N_XE_JSON
     post: _
     """
     return ok(_to_json(False, sc, e1, m1, x1, e2, m2, x2))
@@ -670,7 +671,7 @@ def to_json_objects(sc: int, e1: int, m1: bool, x1: int, e2: int, m2: bool, x2: 
 
 def to_json_objects_rest(sc: int, e1: int, m1: bool, x1: int, e2: int, m2: bool, x2: int) -> bool:
     """
-    pre: 0 <= sc < 4 and 0 <= e1 < 3 and 0 <= x1 < 3 and 0 <= e2 < 3 and 0 <= x2 < N_XE_JSON
+    pre: 0 <= sc < 4 and 0 <= e1 < 3 and 0 <= x1 < 3 and 0 <= e2 < N_E_JSON - 1 and 0 <= x2 < N_XE_JSON
     post: _
     """
     return ok(_to_json(True, sc, e1, m1, x1, e2, m2, x2))
